@@ -700,6 +700,7 @@ func newInterpreter(cfg *Config) *interpreter {
 		overrides: map[string]value{},
 		summOK:    map[*ssa.Function]bool{},
 	}
+	i.tt.owner = i
 	runtimePkg := i.prog.ImportedPackage("runtime")
 	if runtimePkg == nil {
 		panic("ssa.Program doesn't include runtime package")
